@@ -168,7 +168,7 @@ def fam_degenerate(rng, n):
     fam = Family("degenerate_transitions",
                  "stochastic states whose transition rows are all unit vectors e_g(deps) vs the same model with "
                  "the deterministic transition g: identical solutions; all non-trivial")
-    bases = e2e.gen_cases(rng, n, features=[{"two_stochastic"}, {"stochastic"}, {"two_stochastic", "filter"}, {"stochastic", "constraint"}])
+    bases = e2e.gen_cases(rng, n, features=[{"two_stochastic"}, {"two_stochastic", "constraint"}, {"stochastic"}, {"two_stochastic", "filter"}])
     cases, info = [], []
     for c in bases:
         r = meta.degenerate(rng, c["_mspec"], c["_params"])
@@ -207,7 +207,9 @@ def fam_degenerate(rng, n):
 def run(tier, seed):
     rng = random.Random(seed * 7919 + 11)
     k = 1 if tier == "quick" else 15
-    return [fam_affine(rng, 8 * k), fam_beta_zero(rng, 5 * k), fam_horizon(rng, 5 * k), fam_degenerate(rng, 6 * k)]
+    fam_b0, _ = e2e.fam_solve(rng, 8 * k, name="beta_zero_vs_one_period_problems", jit_modes=(True,), beta_zero=True,
+                              features=[{"period_filter"}, {"constraint"}, {"period_filter", "stochastic"}, set()])
+    return [fam_affine(rng, 8 * k), fam_beta_zero(rng, 5 * k), fam_b0, fam_horizon(rng, 5 * k), fam_degenerate(rng, 10 * k)]
 
 
 def matches_signature(entry, item):
